@@ -11,6 +11,17 @@ use vlib::oracle::{self, Verdict};
 use vlib::tape::Tape;
 
 fuzz_target!(|data: &[u8]| {
+    // every input is judged on a thread of its own with a large stack: deeply nested mutants otherwise exhaust the
+    // fuzzer thread's stack (recorded finding D12) and end the worker without an artifact
+    let data = data.to_vec();
+    let handle = std::thread::Builder::new().stack_size(1 << 30).spawn(move || judge(&data)).expect("spawn");
+    if handle.join().is_err() {
+        eprintln!("VIOLATION property=harness :: the judging thread panicked");
+        std::process::abort();
+    }
+});
+
+fn judge(data: &[u8]) {
     if data.len() < 7 {
         return;
     }
@@ -84,4 +95,4 @@ fuzz_target!(|data: &[u8]| {
     if let Verdict::Fail(d) = oracle::c02(&case, &out) {
         fail("C02", d);
     }
-});
+}
